@@ -41,7 +41,7 @@ META = {
     'shrink_budget': 300,
 }
 
-KINDS = ['section', 'subsection', 'equation', 'item', 'item2', 'figure', 'figure0', 'table', 'theorem', 'lemma']
+KINDS = ['section', 'subsection', 'equation', 'item', 'item2', 'figure', 'figure0', 'table', 'theorem', 'lemma', 'prop']
 
 
 def generate(seed, tier):
@@ -183,7 +183,8 @@ def _ref_par(x):
 
 
 def compile_doc(events):
-    lines = ['\\documentclass{article}', '\\newtheorem{thm}{Theorem}', '\\newtheorem{lem}[thm]{Lemma}', '\\begin{document}']
+    lines = ['\\documentclass{article}', '\\newtheorem{thm}{Theorem}', '\\newtheorem{lem}[thm]{Lemma}',
+             '\\newtheorem{prop}{Proposition}[subsection]', '\\begin{document}']
     for e in events:
         if e[0] == 'REF':
             lines.append(_ref_par(e[1]))
@@ -218,6 +219,8 @@ def compile_doc(events):
                          '\\item %s %s %s %s\\item last\\end{enumerate}' % (pre, lab, m, post))
         elif k == 'lemma':
             lines.append('\\begin{lem}%s %s %s %s\\end{lem}' % (lab, pre, m, post))
+        elif k == 'prop':
+            lines.append('\\begin{prop}%s %s %s %s\\end{prop}' % (lab, pre, m, post))
         elif k in ('figure', 'table'):
             lines.append('\\begin{%s} %s \\caption{C%s%s}%s %s\\end{%s}' % (k, pre, m, ttl, lab, post, k))
         elif k == 'figure0':
@@ -246,7 +249,7 @@ def _all_nodes(node, out):
 
 EXPECT_NODE = {'section': ('section',), 'subsection': ('subsection',), 'equation': ('equation',), 'item': ('item',),
                'figure': ('caption',), 'table': ('caption',), 'theorem': ('thm', 'thmenv'), 'item2': ('item',),
-               'lemma': ('lem', 'thmenv'), 'figure0': ('caption',)}
+               'lemma': ('lem', 'thmenv'), 'figure0': ('caption',), 'prop': ('prop', 'thmenv')}
 
 
 def run_doc(events, objs):
@@ -275,7 +278,7 @@ def run_doc(events, objs):
                             pass
                 except Exception:
                     txt = ''
-                if ('T' + o['m'] in txt) or ('C' + o['m'] in txt) or (o['kind'] in ('equation', 'item', 'item2', 'theorem', 'lemma') and o['m'] in txt.split()) \
+                if ('T' + o['m'] in txt) or ('C' + o['m'] in txt) or (o['kind'] in ('equation', 'item', 'item2', 'theorem', 'lemma', 'prop') and o['m'] in txt.split()) \
                         or (o['kind'] == 'equation' and o['m'] in txt):
                     cands.append(n)
         objnode[o['m']] = cands
@@ -388,7 +391,7 @@ def _probes(ev, objs, refs, info):
                     info['label_on_caption'] = 1
                 if o['kind'] == 'figure0':
                     info['label_on_empty_caption'] = 1
-                if o['kind'] in ('theorem', 'lemma'):
+                if o['kind'] in ('theorem', 'lemma', 'prop'):
                     info['label_on_theorem'] = 1
             else:
                 info['unlabelled_between'] = 1
@@ -425,10 +428,15 @@ def _one(x, seen, pending, info):
 def expected_numbers(objs):
     """The number LaTeX's article class prints for each generated object (sequential counters; subsections
     numbered within the current section; every generated enumerate has one item)."""
-    n = {'section': 0, 'subsection': 0, 'equation': 0, 'figure': 0, 'table': 0, 'theorem': 0}
+    n = {'section': 0, 'subsection': 0, 'equation': 0, 'figure': 0, 'table': 0, 'theorem': 0, 'prop': 0}
     out = {}
     for o in objs:
         k = o['kind']
+        if k == 'prop':
+            # numbered within subsection: restarts whenever a subsection (or, transitively, a section) steps
+            n['prop'] += 1
+            out[o['m']] = '%d.%d.%d' % (n['section'], n['subsection'], n['prop'])
+            continue
         if k in ('item', 'item2'):
             out[o['m']] = '1' if k == 'item' else '2'
             continue
@@ -439,8 +447,10 @@ def expected_numbers(objs):
         n[k] += 1
         if k == 'section':
             n['subsection'] = 0
+            n['prop'] = 0
             out[o['m']] = str(n[k])
         elif k == 'subsection':
+            n['prop'] = 0
             out[o['m']] = '%d.%d' % (n['section'], n[k])
         else:
             out[o['m']] = str(n[k])
